@@ -19,7 +19,7 @@ def showVar : Option Var → String
 
 -- Locs of all function bodies of a chunk (for the function level of an occurrence)
 mutual
-partial def fnLocsE : Exp → List Loc
+def fnLocsE : Exp → List Loc
   | .unop _ e _ => fnLocsE e
   | .binop _ a b _ => fnLocsE a ++ fnLocsE b
   | .table ks vs _ => ks.flatMap fnLocsE ++ vs.flatMap fnLocsE
@@ -28,9 +28,9 @@ partial def fnLocsE : Exp → List Loc
   | .index p k _ => fnLocsE p ++ fnLocsE k
   | .call p _ a _ => fnLocsE p ++ a.flatMap fnLocsE
   | _ => []
-partial def fnLocsB : Block → List Loc
+def fnLocsB : Block → List Loc
   | .mk ss ret _ => ss.flatMap fnLocsS ++ (match ret with | some es => es.flatMap fnLocsE | none => [])
-partial def fnLocsS : Stat → List Loc
+def fnLocsS : Stat → List Loc
   | .do_ b _ => fnLocsB b
   | .while_ c b _ => fnLocsE c ++ fnLocsB b
   | .repeat_ b c _ => fnLocsB b ++ fnLocsE c
@@ -44,7 +44,7 @@ partial def fnLocsS : Stat → List Loc
   | _ => []
 end
 
-partial def allVars : Tree → List Var
+def allVars : Tree → List Var
   | .mk _ vs subs => vs ++ subs.flatMap allVars
 
 /-- `scope <srchex> <conv>`: one item per identifier occurrence:
